@@ -24,6 +24,7 @@ func propC12() *Property {
 			{ID: "C12.R5", Title: "which targets are numbered does not depend on the width", Floor: 3, Run: c12R5},
 			{ID: "C12.R6", Title: "the printed label shows the number: superscript digit table, most significant digit first", Floor: 2, Run: c12R6},
 			{ID: "C12.R7", Title: "a link list that comes with an error is empty: no link without a number can be selected", Floor: 3, Run: c12R7},
+			{ID: "C12.R8", Title: "opening one link does not change what the next number opens: the hook's argv is a private copy of the configuration (same instances as C20.R2)", Floor: 2, Run: c20R2},
 		},
 	}
 }
